@@ -118,6 +118,16 @@ impl CertificateSigningRequestParams {
 			..CertificateParams::default()
 		};
 		let raw = info.subject_pki.subject_public_key.data.to_vec();
+		let public_key = PublicKey { alg, raw };
+
+		// The key's algorithm was derived from the signature algorithm; make sure it also
+		// describes the embedded key, i.e. that a certificate issued from this request
+		// will carry exactly the SubjectPublicKeyInfo that the requester signed (and
+		// not, say, a P-384 key labeled as P-256 because the CSR was signed with SHA-256).
+		let spki = yasna::construct_der(|writer| serialize_public_key_der(&public_key, writer));
+		if spki != info.subject_pki.raw {
+			return Err(Error::UnsupportedSignatureAlgorithm);
+		}
 
 		if let Some(extensions) = csr.requested_extensions() {
 			for ext in extensions {
@@ -183,10 +193,7 @@ impl CertificateSigningRequestParams {
 		// * name_constraints
 		// and any other extensions.
 
-		Ok(Self {
-			params,
-			public_key: PublicKey { alg, raw },
-		})
+		Ok(Self { params, public_key })
 	}
 
 	/// Generate a new certificate based on the requested parameters, signed by the provided
